@@ -140,7 +140,8 @@ pub fn run(args: &Args) {
             out.count("directive-beside-import");
             format!("import a{} from \"m{}\"; // deno-lint-ignore {}\n", n, n, rule)
           }
-          6 => format!("import a{} from \"m{}\";   \t\n", n, n),
+          6 if rng.chance(1, 2) => format!("import a{} from \"m{}\";   \t\n", n, n),
+          6 => format!("import a{} from \"m{}\";\u{a0}\u{3000}\n", n, n),
           7 => format!("import a{} from \"m{}\" /* c */;\n", n, n),
           8 if ts => format!("import type T{} from \"m{}\";\n", n, n),
           9 if ts => {
